@@ -32,6 +32,7 @@ type Parser struct {
 	mode      string
 	keymap    string
 	line      int
+	including []string
 	conds     []bool
 	errs      []error
 }
@@ -358,6 +359,20 @@ func (p *Parser) do(handler Handler, keyword, val string) error {
 		}
 
 		path := expandIncludePath(val)
+
+		// A file that is currently being read must not be included
+		// again (by itself or by a file it includes): never recurse.
+		for _, name := range p.including {
+			if name == path {
+				return &ParseError{
+					Name: p.name,
+					Line: p.line,
+					Text: keyword + " " + val,
+					Err:  ErrRecursiveInclude,
+				}
+			}
+		}
+
 		buf, err := handler.ReadFile(path)
 
 		switch {
@@ -367,7 +382,9 @@ func (p *Parser) do(handler Handler, keyword, val string) error {
 			return err
 		}
 
-		return Parse(bytes.NewReader(buf), handler, WithName(val), WithApp(p.app), WithTerm(p.term), WithMode(p.mode))
+		including := append(append([]string{}, p.including...), path)
+
+		return Parse(bytes.NewReader(buf), handler, WithName(val), WithApp(p.app), WithTerm(p.term), WithMode(p.mode), withIncluding(including))
 	}
 
 	if !p.conds[len(p.conds)-1] {
@@ -428,6 +445,13 @@ func WithTerm(term string) Option {
 func WithMode(mode string) Option {
 	return func(p *Parser) {
 		p.mode = mode
+	}
+}
+
+// withIncluding is a parser option to set the files currently being included.
+func withIncluding(files []string) Option {
+	return func(p *Parser) {
+		p.including = files
 	}
 }
 
